@@ -66,6 +66,14 @@ func init() {
 }
 
 func runC33(c *Ctx) {
+	// AS lists are ordered SEQUENCE OF fields: encoding and decoding map them element by element, in order
+	for _, q := range []struct{ fn, param string }{{"pkg/scrypto/cppki.encodeASes", "arg0"}, {"pkg/scrypto/cppki.decodeASes", "arg0"}} {
+		if v := c.View(q.fn); v != nil {
+			why := orderPreservingMap(v, q.param)
+			c.Check(why == "", "E2-as-lists-in-order", v.Name()+":element-wise-in-order", v.Fn.Pos(),
+				"the result lists one value per input element, in the input's order"+map[bool]string{true: "", false: ": " + why}[why == ""])
+		}
+	}
 	cp := "pkg/scrypto/cppki."
 	if v := c.View("(*" + cp + "TRC).Validate"); v != nil {
 		fn := v.Fn
